@@ -48,13 +48,16 @@ pub(crate) fn impl_cbrt_uint_scale(
 
     match remainder.cmp(&0) {
         Ordering::Greater => {
+            verif_probe!(Cbrt_RemPos);
             new_scale += 1;
             exp_shift += (3 - remainder) as u64;
         }
         Ordering::Less => {
+            verif_probe!(Cbrt_RemNeg);
             exp_shift += remainder.neg() as u64;
         }
         Ordering::Equal => {
+            verif_probe!(Cbrt_RemZero);
         }
     }
 
@@ -71,6 +74,8 @@ pub(crate) fn impl_cbrt_uint_scale(
     let result_digits = integer_digits.nth_root(3);
     // the discarded digits only describe the tail of the true root if the integer root is exact
     let exact_root = &result_digits * &result_digits * &result_digits == *integer_digits;
+    verif_probe_if!(exact_root, Cbrt_Exact);
+    verif_probe_if!(!exact_root, Cbrt_Inexact);
     let result_digits_count = count_decimal_digits_uint(&result_digits);
     debug_assert!(result_digits_count > precision.get());
 
@@ -88,6 +93,7 @@ pub(crate) fn impl_cbrt_uint_scale(
     let trailing_digits;
     if remainder_digits.len() < digits_to_trim as usize {
         // leading zeros
+        verif_probe!(Cbrt_LeadingZeroRemainder);
         insig_digit0 = 0;
         trailing_digits = remainder_digits.as_slice();
     } else {
